@@ -162,6 +162,67 @@ func connChurn(c *Ctx, i int, line string) {
 	c.count("conn-churn")
 }
 
+// ufsChurn: a busy .u connection stats its root while connections of users the server has not
+// seen yet are mounted and dropped (each only after its own Tattach has been answered).
+var churnUid uint32 = 700000
+
+func ufsChurn(c *Ctx, i int, line string) {
+	r := c.rng(i)
+	e, err := newC06srv("ufs", 8192, true, r)
+	if err != nil {
+		c.oracleFail("C19/setup", err.Error(), line)
+		return
+	}
+	defer e.closef()
+	rt := func(cn net.Conn, tag uint16, pack func(fc *g.Fcall) error) []byte {
+		fc := g.NewFcall(8192)
+		if pack(fc) != nil {
+			return nil
+		}
+		g.SetTag(fc, tag)
+		cn.SetWriteDeadline(time.Now().Add(3 * time.Second))
+		if _, err := cn.Write(fc.Pkt); err != nil {
+			return nil
+		}
+		buf, err := readFrame(cn, 3*time.Second)
+		if err != nil {
+			return nil
+		}
+		return buf
+	}
+	busy := e.newc()
+	defer busy.Close()
+	rt(busy, g.NOTAG, func(fc *g.Fcall) error { return g.PackTversion(fc, 8192, "9P2000.u") })
+	rt(busy, 1, func(fc *g.Fcall) error { return g.PackTattach(fc, 0, g.NOFID, "", "", uint32(os.Getuid()), true) })
+	stop := make(chan bool)
+	var wg sync.WaitGroup
+	wg.Add(1)
+	go func() {
+		defer wg.Done()
+		for {
+			select {
+			case <-stop:
+				return
+			default:
+			}
+			if rt(busy, 2, func(fc *g.Fcall) error { return g.PackTstat(fc, 0) }) == nil {
+				return
+			}
+		}
+	}()
+	for k := 0; k < 20+r.Intn(30); k++ {
+		cn := e.newc()
+		churnUid++
+		uid := churnUid
+		rt(cn, g.NOTAG, func(fc *g.Fcall) error { return g.PackTversion(fc, 8192, "9P2000.u") })
+		rt(cn, 1, func(fc *g.Fcall) error { return g.PackTattach(fc, 0, g.NOFID, "", "", uid, true) })
+		cn.Close()
+	}
+	close(stop)
+	wg.Wait()
+	c.count("ufs-churn")
+}
+
 // flushes with live targets on distinct fids, including a Tversion at session start.
 func flushMix(c *Ctx, i int, line string) {
 	r := c.rng(i)
@@ -264,7 +325,7 @@ func genC19(c *Ctx) {
 	var lines []string
 	for k := 0; k < c.scale(120, 2500) && !c.stop(); k++ {
 		i++
-		kind := []string{"ufs-workers", "conn-churn", "flush-mix", "ufs-workers"}[k%4]
+		kind := []string{"ufs-workers", "conn-churn", "flush-mix", "ufs-workers", "ufs-churn"}[k%5]
 		line := fmt.Sprintf("lifejudge C19 %s seed=%d", kind, i)
 		lines = append(lines, line)
 		c.begin(line)
@@ -276,6 +337,8 @@ func genC19(c *Ctx) {
 			connChurn(c, i, line)
 		case "flush-mix":
 			flushMix(c, i, line)
+		case "ufs-churn":
+			ufsChurn(c, i, line)
 		}
 		time.Sleep(2 * time.Millisecond)
 		reps := readRaceReports(c.dir)
